@@ -1681,6 +1681,8 @@ void DEVCONN_ICACHE_FLASH supla_espconn_disconnect(struct espconn *espconn) {
 
 void DEVCONN_ICACHE_FLASH
 supla_esp_devconn_connect_cb(void *arg) {
+	// a new connection always starts with a registration
+	devconn->registered = 0;
 	supla_esp_srpc_init();
 }
 
